@@ -8,14 +8,22 @@ fn sort_key(v: &Value) -> String {
 
 /// Object keys sorted, `UtxoSet` payloads sorted by ref, asset maps sorted; nothing dropped.
 pub fn canon(v: &Value) -> Value {
+    canon_with(v, false)
+}
+
+/// `sum_semantics`: additionally sort the entries of asset lists (they denote a sum; the reducer rebuilds
+/// them from a hash map, so their order differs from run to run)
+pub fn canon_with(v: &Value, sum_semantics: bool) -> Value {
     match v {
         Value::Object(o) => {
             let mut keys: Vec<&String> = o.keys().collect();
             keys.sort();
             let mut out = Map::new();
             for k in keys {
-                let mut c = canon(&o[k]);
-                if k == "UtxoSet" {
+                let mut c = canon_with(&o[k], sum_semantics);
+                // asset lists denote a sum: the order of their entries carries no meaning (the reducer
+                // rebuilds them from a hash map)
+                if k == "UtxoSet" || (sum_semantics && k == "Assets") {
                     if let Value::Array(items) = &mut c {
                         items.sort_by_key(sort_key);
                     }
@@ -24,7 +32,7 @@ pub fn canon(v: &Value) -> Value {
             }
             Value::Object(out)
         }
-        Value::Array(a) => Value::Array(a.iter().map(canon).collect()),
+        Value::Array(a) => Value::Array(a.iter().map(|x| canon_with(x, sum_semantics)).collect()),
         x => x.clone(),
     }
 }
@@ -94,6 +102,11 @@ fn conv(v: &ciborium::Value) -> Value {
 
 pub fn canon_tir<T: serde::Serialize>(t: &T) -> Value {
     canon(&to_json(t))
+}
+
+/// canonical form for comparing *meanings* of reduced templates (asset lists as sums)
+pub fn canon_tir_sums<T: serde::Serialize>(t: &T) -> Value {
+    canon_with(&to_json(t), true)
 }
 
 #[derive(Debug, Default, Clone, PartialEq)]
